@@ -271,6 +271,7 @@ class _Stats(object):
         self.violations = []     # (idx, case, outdict)
         self.harness = []        # (idx, detail)
         self.crashed_isolated = []
+        self.dg = {}
         self.samples = []
         self.variants = {}
         self.wall = 0.0
@@ -292,6 +293,8 @@ class _Stats(object):
         self.violations.extend(part['violations'])
         self.harness.extend(part['harness'])
         self.crashed_isolated.extend(part.get('crashed', []))
+        for idx, dg, vd in part.get('dg', []):
+            self.dg[idx] = (dg, vd)
         if len(self.samples) < 3:
             self.samples.extend(part['samples'][:3 - len(self.samples)])
 
@@ -354,6 +357,8 @@ def _run_chunk(check, verif_seed, tier, indices, slot, progress):
             part['unspec'][k] = part['unspec'].get(k, 0) + v
         vname = case.get('variant', 'default')
         part['variants'][vname] = part['variants'].get(vname, 0) + 1
+        if os.environ.get('VERIF_DIGESTS'):
+            part.setdefault('dg', []).append((idx, out.digest, out.verdict))
         if out.verdict == 'violation':
             if len(part['violations']) < 3:
                 if out.schedule is not None:
@@ -907,6 +912,18 @@ def main(check, argv):
         if argv and argv[0] == '--replay':
             return main_replay(check, argv[1])
         tier = argv[0] if argv else os.environ.get('VERIF_TIER', 'quick')
+        if tier == 'digests':
+            # determinism self-test support: per-run digests of the first n runs of the quick stream
+            n = int(argv[1])
+            os.environ['VERIF_DIGESTS'] = '1'
+            check.prepare('quick')
+            stats, crashed, hung = run_batch(check, verif_seed, 'quick', range(n))
+            out = dict((str(k), v) for k, v in sorted(stats.dg.items()))
+            with open(argv[2], 'w') as f:
+                json.dump(dict(digests=out, crashed=[c[0] for c in crashed], hung=[h[0] for h in hung],
+                               harness=[m for _, m in stats.harness[:3]]), f)
+            print('DIGESTS %d runs -> %s' % (len(out), argv[2]))
+            return 0
         if tier not in ('quick', 'thorough'):
             print('usage: check <ID> quick|thorough|--replay <file>')
             return 2
